@@ -94,8 +94,8 @@ Create `{wt}/_out/` and put there:
   * `patch{n1}.diff`, `demo{n1}.rs`, `notes{n1}.md`  — first change
   * `patch{n2}.diff`, `demo{n2}.rs`, `notes{n2}.md`  — second change
 Each patch is made with `git diff` against the worktree's HEAD and contains ONLY changes under `src/` (not the demo, not
-`_out`, not Cargo.lock); each must apply on its own to a clean HEAD with `git apply` (verify: `git stash`/`git checkout -- src`
-then `git apply --check`). notes: 5-10 lines: what was changed, which clause breaks, what exactly is needed to
+`_out`, not Cargo.lock); each must apply on its own to a clean HEAD with `git apply` (verify with `git diff > file`, `git checkout -- src`, `git apply --check file`; do NOT use `git stash`:
+the stash is shared between all worktrees of the repository and another worker's changes would get mixed into yours). notes: 5-10 lines: what was changed, which clause breaks, what exactly is needed to
 manifest it, what you ran and saw (suite result with the change; demo result without and with the change).
 Leave the worktree's `src/` clean (HEAD state) when you finish; leave `_out/` in place. Do not commit anything.
 When done, reply with a 3-line summary per change.
